@@ -960,6 +960,8 @@ static int dag_main(int argc, char ** argv, const char * property, const char * 
     else if (!strcmp(argv[i], "--tier") && i + 1 < argc) thorough = !strcmp(argv[++i], "thorough");
     else if (!strcmp(argv[i], "--case") && i + 1 < argc) one = argv[++i];
     else if (!strcmp(argv[i], "--jobs") && i + 1 < argc) nproc = atoi(argv[++i]);
+    else if (!strcmp(argv[i], "--prop") && i + 1 < argc) property = argv[++i];      /* the same component serving another property's check */
+    else if (!strcmp(argv[i], "--comp") && i + 1 < argc) component = argv[++i];
     else { fprintf(stderr, "usage: %s --tier quick|thorough --stats FILE [--jobs N] | --case 'KEY'\n", argv[0]); exit(2); }
   }
   COMPONENT = component; PROPERTY = property;
